@@ -80,6 +80,85 @@ def _zero_fact(f, T):
     return T.value_of(args[0]) - T.value_of(args[1])
 
 
+def _euclid_loop(I, pa, pb):
+    """the state transformer of gcd, whatever else the function does (assertions, fast paths): two loop-carried
+    values (x, y) that enter as |a| and |b|, become (y, x % y) in every round, the loop is left exactly when
+    y == 0 and x is returned; a return that bypasses the loop gives one of |a|, |b| when the other one is 0"""
+    from ..absint import strip_mem
+
+    def unref(v):
+        return v[1][1] if isinstance(v, tuple) and v and v[0] == "ref" and v[1][0] == "constval" else v
+
+    def is_abs_of(v, p):
+        if not (isinstance(v, tuple) and v and v[0] == "call" and str(v[1]).split("::")[-1] in ("abs", "into_abs")):
+            return False
+        a = [unref(y) for y in v[2] if not (isinstance(y, tuple) and y and y[0] == "mem")]
+        while a and isinstance(a[0], tuple) and a[0] and a[0][0] == "call" and str(a[0][1]).endswith("clone"):
+            a = [unref(y) for y in a[0][2] if not (isinstance(y, tuple) and y and y[0] == "mem")]
+        return bool(a) and a[0] == p
+
+    def zero_test(facts, v, want_zero):
+        """the facts decide v == ZERO (want_zero) or v != ZERO"""
+        for f in facts:
+            t = f[1]
+            if not (f[0] in ("eq", "ne") and isinstance(t, tuple) and t and t[0] == "call" and str(t[1]).endswith(("PartialEq::ne", "PartialEq::eq"))):
+                continue
+            a = [unref(y) for y in t[2] if not (isinstance(y, tuple) and y and y[0] == "mem")]
+            if len(a) != 2:
+                continue
+            z = [y for y in a if isinstance(y, tuple) and y and y[0] == "assoc" and y[2] == "ZERO"]
+            o = [y for y in a if y not in z]
+            if len(z) != 1 or len(o) != 1 or strip_mem(o[0]) != strip_mem(v):
+                continue
+            truth = (f[0] == "eq") == bool(f[2])
+            equal = truth if str(t[1]).endswith("::eq") else not truth
+            if equal == want_zero:
+                return True
+        return False
+
+    # the loop may sit in a private helper that was inlined
+    owners, work = [], [I]
+    while work:
+        x_ = work.pop()
+        owners.extend((x_, h_) for h_ in x_.loops)
+        work.extend(getattr(x_, "inlined_subs", []))
+    if len(owners) != 1:
+        return False
+    L, head = owners[0]
+    entries = L.loop_entry.get(head, [])
+    backs = L.backedge_states.get(head, [])
+    if len(entries) != 1 or not backs:
+        return False
+    ent = entries[0]
+    xs = [l for l, v in ent.items() if is_abs_of(v, pa)]
+    ys = [l for l, v in ent.items() if is_abs_of(v, pb)]
+    uid = L.uid(head)
+    found = None
+    for x in xs:
+        for y in ys:
+            px, py = ("phi", uid, x), ("phi", uid, y)
+            good = True
+            for bs in backs:
+                nx, ny = bs.env.get(x), bs.env.get(y)
+                rem = isinstance(ny, tuple) and ny and ny[0] == "call" and str(ny[1]).endswith("Rem::rem") and [unref(q) for q in ny[2] if not (isinstance(q, tuple) and q and q[0] == "mem")] == [px, py]
+                good = good and nx == py and rem and zero_test(bs.facts, py, False)
+            if good:
+                found = (x, y, px, py)
+    if found is None:
+        return False
+    x, y, px, py = found
+    ax, ay = ent[x], ent[y]
+    for st in I.final_states:
+        r = util.ret_term(st)
+        through = any(e.kind == "loop" for e in st.event_list())
+        if through:
+            if not (r == px and zero_test(st.facts, py, True)):
+                return False
+        elif not ((r == ax and zero_test(st.facts, ay, True)) or (r == ay and zero_test(st.facts, ax, True))):
+            return False
+    return bool(I.final_states)
+
+
 def check(col, prog, tier, profile, fixture=None):
     crate = prog.crate(fixture or "rlib_gcd")
     free = [f for f in crate.bodies if not f.is_closure and f.kind == "Fn" and f.container is None and f.vis != "pub" and not util.self_recursive(f)]
@@ -190,6 +269,7 @@ def check(col, prog, tier, profile, fixture=None):
     else:
         col.violation("Q2", key, gcd.loc(), "gcd does not take the absolute value of %s before the remainder loop: the result can be negative" % ("both operands" if not absd else "one operand"))
     key = "%s|remainder-loop" % fk(gcd)
+    loop_ok = ret_ok = _euclid_loop(I, pa, pb)
     if loop_ok and ret_ok:
         col.ok("Q2", gcd.loc(), key, "loop body is `a %= b; swap(a, b)` on the absolute values; returns the loop variable")
     else:
@@ -284,6 +364,46 @@ def check(col, prog, tier, profile, fixture=None):
                             # the reduced value is the solver's first component
                             x0 = d2[0]["X"].single_var()
                             okshape = okshape and x0 is not None and x0[0] == "proj" and x0[1] == 0
+        if not okshape:
+            # the same reduction spelled with a sign test:  r = x % k;  r if r >= 0 else r + k   (k > 0 in contract)
+            def _unref(v):
+                return v[1][1] if isinstance(v, tuple) and v and v[0] == "ref" and v[1][0] == "constval" else v
+
+            def negative(rp):
+                """True / False when the path facts decide rp < 0, else None"""
+                for f in st.facts:
+                    t = f[1]
+                    if not (f[0] in ("eq", "ne") and isinstance(t, tuple) and t and t[0] == "call" and "PartialOrd::" in str(t[1])):
+                        continue
+                    nm = str(t[1]).rsplit("::", 1)[-1]
+                    a = [_unref(y) for y in t[2] if not (isinstance(y, tuple) and y and y[0] == "mem")]
+                    if len(a) != 2 or nm not in ("lt", "ge", "gt", "le"):
+                        continue
+                    truth = (f[0] == "eq") == bool(f[2])
+                    zero1 = isinstance(a[1], tuple) and a[1] and a[1][0] == "assoc" and a[1][2] == "ZERO"
+                    zero0 = isinstance(a[0], tuple) and a[0] and a[0][0] == "assoc" and a[0][2] == "ZERO"
+                    if zero1 and nm in ("lt", "ge") and T.poly(a[0]) == rp:
+                        return truth if nm == "lt" else not truth
+                    if zero0 and nm in ("gt", "le") and T.poly(a[1]) == rp:
+                        return truth if nm == "gt" else not truth
+                return None
+
+            for d in list(T.divs.values()):
+                rp = Poly.var(d["r"])
+                k = d["Y"]
+                kv = k.single_var()
+                x0 = d["X"].single_var()
+                if kv is None or kv[0] != "div" or x0 is None or not (x0[0] == "proj" and x0[1] == 0):
+                    continue
+                dk = [x for x in T.divs.values() if x["q"] == kv]
+                g = dk[0]["Y"].single_var() if dk else None
+                if not (dk and dk[0]["X"] == T.poly(m2) and g is not None and g[0] == "call" and str(g[1]).split("::")[-1] == "gcd"):
+                    continue
+                neg = negative(rp)
+                if neg is False and (res - (T.poly(m1) * rp + T.poly(a1))).is_zero():
+                    okshape = True
+                if neg is True and (res - (T.poly(m1) * (rp + k) + T.poly(a1))).is_zero():
+                    okshape = True
         key = "%s|canonical-step" % fk(crt)
         if okshape:
             col.ok("Q3", crt.loc(), key, "m1 * (((x % k) + k) % k) + a1 with k = m2 / gcd(m1, m2)")
